@@ -25,6 +25,7 @@ const (
 //	w     write the next batch (memory part; acknowledged when introducePart returns)
 //	fb fe the flusher's half (part files) and the introducer's half (introduceFlushed -> manifest) of a flush; f = fb fe
 //	m     merge all file parts (mergeParts + introduceMerged -> manifest)
+//	p     merge the two oldest file parts only
 //	gc    garbageCleaner.clean, as the introducer loop calls it after every flush/merge introduction
 //	drain run the queued background removals of merged parts (late histories)
 type history struct {
@@ -130,9 +131,9 @@ func histories(thorough bool) []*history {
 		// storage level: OpenTSDB, create a segment and its shard, write two files durably into the shard, close
 		{Name: "S1-segment", Kind: "segment", Steps: strings.Fields("open seg tab d d close")},
 	}
-	// every history of up to depth steps over {w, f, m} in which each step has an effect and the last one publishes a
+	// every history of up to depth steps over {w, f, m, p} in which each step has an effect and the last one publishes a
 	// manifest (gc follows f/m as in the introducer loop); thorough also runs the ones that merge with late removal
-	depth := 4
+	depth := 5
 	if thorough {
 		depth = 6
 	}
@@ -141,11 +142,11 @@ func histories(thorough bool) []*history {
 	gen = func(prefix []string, mem, file int) {
 		if len(prefix) > 0 && (prefix[len(prefix)-1] != "w") {
 			s := "init " + strings.Join(prefix, " ")
-			s = strings.ReplaceAll(strings.ReplaceAll(s, "f", "f gc"), "m", "m gc")
+			s = strings.ReplaceAll(strings.ReplaceAll(strings.ReplaceAll(s, "f", "f gc"), "m", "m gc"), "p", "p gc")
 			if !seen[s] {
 				seen[s] = true
 				hs = append(hs, mk("G:"+strings.Join(prefix, ""), false, s))
-				if thorough && strings.Contains(s, "m") {
+				if thorough && strings.ContainsAny(s, "mp") {
 					hs = append(hs, mk("L:"+strings.Join(prefix, ""), true, s+" drain"))
 				}
 			}
@@ -159,6 +160,9 @@ func histories(thorough bool) []*history {
 		}
 		if file >= 2 {
 			gen(append(append([]string{}, prefix...), "m"), mem, 1)
+		}
+		if file >= 3 {
+			gen(append(append([]string{}, prefix...), "p"), mem, file-1)
 		}
 	}
 	gen(nil, 0, 0)
@@ -229,8 +233,11 @@ func record(h *history, scratch string) *recording {
 					t.FlushEnd()
 					vos.VerifMark(fmt.Sprintf("published:%d", covered()))
 				}
-			case "m":
+			case "m", "p":
 				ids := t.FileParts()
+				if s == "p" {
+					ids = ids[:2]
+				}
 				ok, merr := t.Merge(ids)
 				if merr != nil || !ok {
 					fatal("history %s step %d: merge did not run (%v)", h.Name, i, merr)
